@@ -453,7 +453,7 @@ class Speller:
             bad = self.fault_done and self.fault and self.fault[0] == 'bad_action' and not getattr(self, '_ba', False)
             if bad:
                 self._ba = True
-            st.append(self.kw('delete:') + self.sp() + (self.rng.choice(['explode', 'set', 'no', 'nullify']) if bad else self.kw(r['on_delete'])))
+            st.append(self.kw('delete:') + self.sp() + (self.rng.choice(['explode', 'set', 'no', 'nullify', 'setnull', 'noaction', 'setdefault', 'set_null', 'no-action', 'cascading']) if bad else self.kw(r['on_delete'])))
         key = ('ref', ri)
         if st:
             body += self.trailing(key, 'c1', line_ok=False)
